@@ -99,6 +99,20 @@ def hasRoom (a : Tbl) : Bool :=
   | none => a.toList.any (· == 0)
   | some k => (a.toList.filter (· == 0)).length > a.size >>> k
 
+/-- place a new word `w` with key `k` when `p_lookfor` did not find the key:
+    directly into the `EmptySpot`, or through `p_insert` if the table "has room";
+    `none` means the caller has to grow -/
+def tablePlace (k w off : Nat) (a : Tbl) : Option Tbl :=
+  match RH.lookfor k a off with
+  | .found _ => none
+  | .empty idx => some (put a idx w)
+  | .needInsert =>
+    if hasRoom c a then
+      match RH.pinsert k a off with
+      | .ok (idx, a') => some (put a' idx w)
+      | .error _ => none
+    else none
+
 abbrev Ins (D : Type) := Rp → Nat → M D (Rp × Bool)
 
 def insertAll (rec : Ins D) (r : Rp) (xs : List Nat) : M D Rp :=
@@ -151,12 +165,10 @@ def insertPlain (sz cap bits : Nat) (a : Tbl) (e : Nat) : M D (Rp × Bool) := do
   let e' := if e = 0 then bits else e
   match RH.lookfor e' a 0 with
   | .found _ => pure (.heap sz cap bits a, false)
-  | .empty idx => pure (.heap (sz + 1) cap bits (put a idx e'), true)
-  | .needInsert =>
-    if hasRoom c a then do
-      let a' ← placeRaw e' a
-      pure (.heap (sz + 1) cap bits a', true)
-    else do
+  | _ =>
+    match tablePlace c e' e' 0 a with
+    | some a' => pure (.heap (sz + 1) cap bits a', true)
+    | none => do
       let r ← drawM c g cap bits
       let newcap := cap + 1 + (r % c.bigMod cap)
       let na : Tbl := Array.replicate newcap 0
@@ -181,13 +193,10 @@ def insertBitmap (rec : Ins D) (sz cap bits : Nat) (a : Tbl) (e : Nat) : M D (Rp
       let w := get a idx
       if w.testBit off then pure (.heap sz cap bits a, false)
       else pure (.heap (sz + 1) cap bits (put a idx (w ||| (1 <<< off))), true)
-    | .empty idx => pure (.heap (sz + 1) cap bits (put a idx word), true)
-    | .needInsert =>
-      if hasRoom c a then
-        match RH.pinsert key a bits with
-        | .ok (idx, a') => pure (.heap (sz + 1) cap bits (put a' idx word), true)
-        | .error _ => fail .noRoom
-      else
+    | _ =>
+      match tablePlace c key word bits a with
+      | some a' => pure (.heap (sz + 1) cap bits a', true)
+      | none =>
         let mx0 := (a.toList.map (fun x => (x >>> bits) * bits + bits)).foldl max 0
         let mx := if e > mx0 then e else mx0
         if cap > mx >>> 6 then
